@@ -572,7 +572,11 @@ func newExecutionRule(c *Ctx) {
 			bad("the execution's context must be the one given")
 		}
 		box := ev.LoadField(p.State, r, "canceledResult")
-		if box == nil || box.Op != "alloc" || !ev.load(p.State, box, nil).IsNilConst() {
+		if box == nil {
+			bad("no cancel-result cell")
+			continue
+		}
+		if bv := ev.load(p.State, box, nil); box == nil || box.Op != "alloc" || !(bv.IsNilConst() || bv.Op == "zero") {
 			bad("a new execution has no stored cancel result")
 		}
 		if m := ev.LoadField(p.State, r, "mtx"); m == nil || m.Op != "alloc" {
